@@ -1096,6 +1096,8 @@ def create_pressure_control(
 
     # check if junctions exist to attach the pump to
     _check_branch(net, "PressureControl", index, from_junction, to_junction)
+    # the controlled junction is a reference as well
+    _check_junction_element(net, controlled_junction)
 
     _set_entries(net, "press_control", index, name=name, from_junction=from_junction, to_junction=to_junction,
                  controlled_junction=controlled_junction, control_active=bool(control_active),
@@ -1798,6 +1800,7 @@ def create_pressure_controls(net, from_junctions, to_junctions, controlled_junct
 
     index = _get_multiple_index_with_check(net, "press_control", index, len(from_junctions))
     _check_branches(net, from_junctions, to_junctions, "press_control")
+    _check_multiple_junction_elements(net, controlled_junctions)
 
     entries = {"name": name, "from_junction": from_junctions, "to_junction": to_junctions,
                "controlled_junction": controlled_junctions, "controlled_p_bar": controlled_p_bar,
